@@ -8,7 +8,13 @@ against the transaction-script model `TofuTxn` (`lean/NauyacaVerif/Misc/TofuTxn.
 One case = one (store, operation): the operation is run to its end (script, outcome, resulting
 table) and then once more per statement boundary with the fault at that boundary — an injected
 exception (family `fault`) or `os._exit` in a forked child followed by reopening the file (family
-`kill`).  Family `roundtrip` exports a store and imports the file into an empty one.
+`kill`).  Family `roundtrip` exports a store and imports the file into an empty one - in this process, or (dimension
+`env`) in a child interpreter started under another locale (`sim/store_child.py`).
+
+Family `session` runs HISTORIES of 2..6 operations through one long-lived store object (some failing: defective import
+file, raising callback, injected SQL error), reading the table after every step both from the file and through the object;
+family `bulk` runs stores / import files of thousands of hosts (transactions of several megabytes) with the process killed
+at one late statement boundary, then reads the table back and looks every old pin up through a fresh store object.
 """
 from __future__ import annotations
 
@@ -712,7 +718,7 @@ class Session(Family):
     connection AND through the object itself.  A step of the history is compared with the model (`txn` on the state observed
     before it)."""
     name = "session"
-    quick_n = 1200
+    quick_n = 1000
     thorough_n = 20000
     model_from_obs = True
 
@@ -754,7 +760,7 @@ class Session(Family):
                     known.append([op["host"], op["port"], op["fp"], now, now])
                 elif op["kind"] == "import":
                     known += [[e["host"], e["port"], e["fp"], e.get("first", 1), now] for e in op["entries"]
-                              if isinstance(e.get("port"), int) and not isinstance(e.get("port"), bool) and isinstance(e.get("host"), str) and "fp" in e]
+                              if isinstance(e.get("port"), int) and not isinstance(e.get("port"), bool) and 1 <= e["port"] <= 65535 and isinstance(e.get("host"), str) and "fp" in e]
             yield {"store": store, "steps": steps, "reuse": rng.random() < 0.8, "probe": rng.randrange(len(steps))}
             count += 1
 
@@ -931,25 +937,26 @@ class Bulk(Family):
     (`at` = fraction of the script; 1.0 = just before the commit): the process is killed there (or an SQL error is injected),
     the file is reopened, the table read back, and every pin of the old store is looked up through a fresh store object."""
     name = "bulk"
-    quick_n = 16
     thorough_n = 192
     model_from_obs = True
 
+    quick_n = 8          # one case per process in the quick tier (a case takes seconds)
     FIXED = [
-        {"kind": "import", "merge": True, "n": 4000, "len": 253, "store_n": 400, "store_len": 40, "tail": "ok", "at": 1.0, "mode": "exit"},
-        {"kind": "import", "merge": False, "n": 4000, "len": 253, "store_n": 400, "store_len": 40, "tail": "ok", "at": 1.0, "mode": "exit"},
-        {"kind": "import", "merge": True, "n": 6000, "len": 120, "store_n": 50, "store_len": 120, "tail": "cbraise", "at": 1.0, "mode": "exit"},
-        {"kind": "import", "merge": True, "n": 3000, "len": 253, "store_n": 2000, "store_len": 200, "tail": "badport", "at": 0.97, "mode": "exit"},
-        {"kind": "clear", "merge": True, "n": 0, "len": 0, "store_n": 6000, "store_len": 253, "tail": "ok", "at": 1.0, "mode": "exit"},
-        {"kind": "import", "merge": False, "n": 5000, "len": 200, "store_n": 3000, "store_len": 253, "tail": "ok", "at": 0.9, "mode": "exit"},
-        {"kind": "import", "merge": True, "n": 4000, "len": 253, "store_n": 400, "store_len": 40, "tail": "badfp", "at": 1.0, "mode": "raise"},
-        {"kind": "import", "merge": True, "n": 12000, "len": 30, "store_n": 400, "store_len": 30, "tail": "ok", "at": 1.0, "mode": "exit"},
+        {"kind": "import", "merge": True, "n": 3200, "len": 253, "store_n": 400, "store_len": 40, "tail": "ok", "at": 1.0, "mode": "exit"},
+        {"kind": "import", "merge": False, "n": 3200, "len": 253, "store_n": 400, "store_len": 40, "tail": "ok", "at": 1.0, "mode": "exit"},
+        {"kind": "import", "merge": True, "n": 5000, "len": 120, "store_n": 50, "store_len": 120, "tail": "cbraise", "at": 1.0, "mode": "exit"},
+        {"kind": "import", "merge": True, "n": 2600, "len": 253, "store_n": 2000, "store_len": 200, "tail": "badport", "at": 0.97, "mode": "exit"},
+        {"kind": "clear", "merge": True, "n": 0, "len": 0, "store_n": 5000, "store_len": 253, "tail": "ok", "at": 1.0, "mode": "exit"},
+        {"kind": "import", "merge": False, "n": 3000, "len": 200, "store_n": 3000, "store_len": 253, "tail": "ok", "at": 0.9, "mode": "exit"},
+        {"kind": "import", "merge": True, "n": 3200, "len": 253, "store_n": 400, "store_len": 40, "tail": "badfp", "at": 1.0, "mode": "raise"},
+        {"kind": "import", "merge": True, "n": 9000, "len": 30, "store_n": 400, "store_len": 30, "tail": "ok", "at": 1.0, "mode": "exit"},
     ]
 
     def gen(self, rng, n):
         count = 0
-        for i, b in self.share(list(enumerate(self.FIXED))):
-            yield {"bulk": dict(b, salt=i), "now": 500}
+        for b in self.share(self.FIXED):
+            # the boundary shapes, each time with other names and a somewhat different size
+            yield {"bulk": dict(b, n=int(b["n"] * rng.uniform(0.9, 1.25)), salt=rng.randrange(10 ** 6)), "now": rng.randint(401, 900)}
             count += 1
         while count < n:
             kind = "clear" if rng.random() < 0.12 else "import"
@@ -1121,7 +1128,7 @@ class RoundTrip(Family):
 
         envs = store_child.available()
         fixed = [{"rows": [[h, 1965, i + 1, 10 + i, 20 + i] for i, h in enumerate(hs)], "now": 904, "env": e}
-                 for e in envs for hs in (HOSTS, ["example.com", "ünï.çödé"], ["日本語.jp"], ["plain.example", "a"])]
+                 for e in envs for hs in (HOSTS, ["example.com", "ünï.çödé"], ["plain.example", "a"])]
         for c in self.share(fixed):
             yield c
         for _ in range(max(0, n - 4)):
@@ -1142,7 +1149,7 @@ class RoundTrip(Family):
                 f = rng.randint(1, 400)
                 rows.append([h, p, rng.randint(1, 10 ** 9), f, f + rng.choice([0, 7])])
             case = {"rows": rows, "now": rng.randint(401, 999)}
-            if rng.random() < 0.1:
+            if rng.random() < 0.06:
                 case["env"] = rng.choice(envs)
             yield case
 
